@@ -555,6 +555,7 @@ cgi.assign = (".sh" => "/bin/sh", ".py" => "%(python)s")
 %(errhandler)s
 %(parseopts)s
 %(errdoc)s
+%(extra)s
 """
 
 CGI = {
@@ -597,6 +598,27 @@ def out(b):
         n = os.write(1, b)
         b = b[n:]
 head = "Content-Type: application/octet-stream\r\n"
+if q.get("te") == "1":
+    # chunked backend response: chunk sizes from `chunks`, one flush point inside the encoded body,
+    # optional Content-Length before (order=ct) or after (order=tc) Transfer-Encoding
+    enc = b""
+    off = 0
+    for c in [int(x) for x in q.get("chunks", "").split(".") if x] + [total]:
+        n = min(c, total - off)
+        if n <= 0:
+            continue
+        enc += b"%x\r\n" % n + data[off:off + n] + b"\r\n"
+        off += n
+    enc += b"0\r\n\r\n"
+    clv = q.get("clv", "")
+    te = "Transfer-Encoding: chunked\r\n"
+    cl = ("Content-Length: %s\r\n" % clv) if clv else ""
+    head += (cl + te) if q.get("order") == "ct" else (te + cl)
+    fl = min(int(q.get("flush", "0")), len(enc))
+    out((head + "\r\n").encode() + enc[:fl])
+    time.sleep(int(q.get("fgap", "60")) / 1000.0)
+    out(enc[fl:])
+    sys.exit(0)
 if q.get("cl") == "1":
     head += "Content-Length: %d\r\n" % total
 out((head + "\r\n").encode())
@@ -699,7 +721,10 @@ def client(port, data, sched=None, total_timeout=30.0, segs=None):
     try:
         if segs:
             for seg, gap in segs:
-                s.sendall(seg)
+                try:
+                    s.sendall(seg)
+                except OSError:
+                    break               # the server has closed: keep what it sent
                 if gap == "wait100":
                     s.settimeout(1.0)
                     try:
@@ -833,7 +858,7 @@ def check_exchange(reqs, data, closed):
         last = i == len(rs) - 1
         if r["framing"] == "close" and not last:
             return w + "close-delimited response followed by another", []
-        if last and conn != b"close":
+        if last and conn != b"close" and not getattr(q, "lenient_close", False):
             return w + "connection closed without 'Connection: close'", []
         if not last and conn == b"close":
             return w + "'Connection: close' but the connection kept serving", []
@@ -895,6 +920,32 @@ def e2e_cases(ctx, variant, rng):
     nsz = len(SIZES)
     big = [i for i in range(nsz) if SIZES[i] >= 65535]
     kareq = variant["kareq"]
+    if variant.get("proxy"):
+        # a backend that answers before the request body is complete (server.stream-request-body 1/2): the rest of the
+        # body must never be answered as if it were new requests - responses <= requests, then the connection ends
+        smug = b"GET /f_1.bin HTTP/1.1\r\nHost: localhost\r\n\r\n"
+        def early(kind, head, first, rest):
+            q = Req(head + first, 200, b"early", ka=0, kind="proxy-early-" + kind, model=None)
+            q.lenient_close = True
+            return ("proxy-early-" + kind, [q], None, [(head + first, 0.5), (rest, 0.3)])
+        for k in range(3 if ctx.quick else 8):
+            first = pat(k, rng.choice([1, 5, 60]))
+            hd = b"POST /px/early?%d HTTP/1.1\r\nHost: localhost\r\nTransfer-Encoding: chunked\r\n\r\n" % k
+            cases.append(early("chunked", hd, b"%x\r\n" % len(first) + first + b"\r\n",
+                               b"%x\r\n" % len(smug) + smug + b"\r\n" + b"%x\r\n" % len(smug) + smug + b"\r\n0\r\n\r\n"))
+            total = 200 + k
+            hd = b"POST /px/early?%d HTTP/1.1\r\nHost: localhost\r\nContent-Length: %d\r\n\r\n" % (k, total)
+            cases.append(early("cl", hd, first, (smug * 8)[:total - len(first)]))
+        # the normal case through the same proxy: complete bodies, keep-alive continues
+        body = pat(5, 3000)
+        for k in range(2):
+            q1 = Req(req_bytes("POST", "/px/full", 1, ["Content-Length: %d" % len(body)], body=body), 200, b"len=%d" % len(body),
+                     kind="proxy-full-cl", model=None)
+            ch = b"".join(b"%x\r\n" % len(body[i:i + 700]) + body[i:i + 700] + b"\r\n" for i in range(0, len(body), 700)) + b"0\r\n\r\n"
+            q2 = Req(req_bytes("POST", "/px/full", 1, ["Transfer-Encoding: chunked"], body=ch), 200, b"len=%d" % len(body),
+                     kind="proxy-full-chunked", model=None)
+            cases.append(("proxy-full", [q1, q2, static_req(1), static_req(2, close=True)], None, None))
+        return cases
     if variant.get("eh"):
         # error handlers (static file / CGI; error-handler and error-handler-404) x HEAD/GET/POST x pipelining:
         # a HEAD response has no body octets and the next response starts right behind its header section
@@ -1097,6 +1148,29 @@ def e2e_cases(ctx, variant, rng):
     cases.append(("producer-1.0-ka-nocl", [producer_req(rng, profs[8], ver=0, fins=fins_p, ka10=True), static_req(1, ver=0)], None, None))
     two = [producer_req(rng, profs[5], fins=fins_p), producer_req(rng, profs[6], fins=fins_p), static_req(2, close=True)]
     cases.append(("producer-pipeline", two, None, None))
+    # chunked backend responses: the first flush (header + part of the encoded body) ends at EVERY octet position of
+    # the first chunks; Content-Length next to Transfer-Encoding in both field orders (the client must get one
+    # self-delimiting message with exactly the decoded body)
+    def chunked_req(flush, chunks="5.7.1", total=40, clv="", order="tc", ver=1, meth="GET"):
+        seed = rng.randint(0, 250)
+        t = "/prod.py?seed=%d&total=%d&te=1&chunks=%s&flush=%d&fgap=%d&clv=%s&order=%s" % (
+            seed, total, chunks, flush, rng.choice([40, 70]), clv, order)
+        head = meth == "HEAD"
+        return Req(req_bytes(meth, t, ver), 200, b"" if head else pat(seed, total), head=head, ver=ver, ka=1 if ver else 0,
+                   kind="backend-chunked-%s%s" % (meth, "-cl" + order if clv else ""), model=None)
+    enc_len = (3 + 5 + 2) + (3 + 7 + 2) + (3 + 1 + 2) + 4
+    sweep = list(range(0, enc_len + 1)) if (stream or not ctx.quick) else list(range(0, enc_len + 1, 3))
+    for fl in sweep:
+        cases.append(("backend-chunked-flush", [chunked_req(fl), static_req(1), static_req(3, close=True)], None, None))
+    for fl in (0, 3, 8, 9, 10, 13):
+        cases.append(("backend-chunked-flush-1.0", [chunked_req(fl, ver=0)], None, None))
+    for order in ("ct", "tc"):
+        for clv in ("40", "66", "0", "7"):
+            for fl in (0, 8, 200):
+                cases.append(("backend-cl-and-te", [chunked_req(fl, clv=clv, order=order), static_req(1), static_req(2, close=True)],
+                              None, None))
+    cases.append(("backend-chunked-big", [chunked_req(70000, chunks="65536.1.70000", total=200000), static_req(1, close=True)], None, None))
+    cases.append(("backend-chunked-head", [chunked_req(8, meth="HEAD"), static_req(1, close=True)], None, None))
     # Expect: 100-continue, body echoed by a CGI
     payload = pat(77, 3000)
     hdr = req_bytes("POST", "/s_echo.sh", 1, ["Content-Length: %d" % len(payload), "Expect: 100-continue"])
@@ -1114,9 +1188,90 @@ def e2e_cases(ctx, variant, rng):
     return cases
 
 
+class EarlyBackend:
+    """HTTP/1.1 origin behind mod_proxy: /px/early answers as soon as it has the request head (before the request
+    body is complete), /px/full reads the whole body first and reports its length"""
+
+    def __init__(self):
+        self.s = socket.socket()
+        self.s.setsockopt(socket.SOL_SOCKET, socket.SO_REUSEADDR, 1)
+        self.s.bind(("127.0.0.1", 0))
+        self.s.listen(32)
+        self.port = self.s.getsockname()[1]
+        self.stop = False
+        import threading
+        self.t = threading.Thread(target=self.loop, daemon=True)
+        self.t.start()
+
+    def loop(self):
+        import threading
+        self.s.settimeout(0.5)
+        while not self.stop:
+            try:
+                c, _ = self.s.accept()
+            except socket.timeout:
+                continue
+            except OSError:
+                break
+            threading.Thread(target=self.handle, args=(c,), daemon=True).start()
+
+    def handle(self, c):
+        try:
+            c.settimeout(5)
+            buf = b""
+            while b"\r\n\r\n" not in buf:
+                d = c.recv(65536)
+                if not d:
+                    return
+                buf += d
+            head, _, body = buf.partition(b"\r\n\r\n")
+            if b"/px/early" in head.split(b"\r\n")[0]:
+                c.sendall(b"HTTP/1.1 200 OK\r\nContent-Type: text/plain\r\nContent-Length: 5\r\nConnection: close\r\n\r\nearly")
+                c.settimeout(1.5)
+                try:
+                    while c.recv(65536):
+                        pass
+                except OSError:
+                    pass
+                return
+            m = re.search(rb"(?i)content-length: *(\d+)", head)
+            if m:
+                n = int(m.group(1))
+                while len(body) < n:
+                    d = c.recv(65536)
+                    if not d:
+                        break
+                    body += d
+                ln = len(body)
+            else:
+                while not body.endswith(b"0\r\n\r\n"):
+                    d = c.recv(65536)
+                    if not d:
+                        break
+                    body += d
+                dec = dechunk_strict(body)
+                ln = -1 if dec is None else len(dec)
+            msg = b"len=%d" % ln
+            c.sendall(b"HTTP/1.1 200 OK\r\nContent-Type: text/plain\r\nContent-Length: %d\r\n\r\n%s" % (len(msg), msg))
+        except OSError:
+            pass
+        finally:
+            try:
+                c.close()
+            except OSError:
+                pass
+
+    def close(self):
+        self.stop = True
+        try:
+            self.s.close()
+        except OSError:
+            pass
+
+
 def vname_of(v):
     return "%(backend)s/stream%(stream)d/kareq%(kareq)d/ctrls%(ctrls)d" % v + ("/kaidle0" if v.get("kaidle") == 0 else "") \
-        + ("/errhandler" if v.get("eh") else "") \
+        + ("/errhandler" if v.get("eh") else "") + ("/proxy-srb%d" % v["srb"] if v.get("proxy") else "") \
         + ("/faultshim" if v.get("shim") else "")
 
 
@@ -1129,7 +1284,13 @@ def run_variant(ctx, bd, variant, rng, results):
             shim_log = os.path.join(C.scratch_dir("shimlog"), "counts")
             env = {"LD_PRELOAD": so, "LTV_FAULT_SEED": str(variant["shim"]), "LTV_FAULT_LOG": shim_log,
                    "ASAN_OPTIONS": "detect_leaks=0:abort_on_error=1:handle_abort=1:verify_asan_link_order=0"}
-    srv = e2e.Server(bd, CONF % variant, modules=("mod_cgi",), env=env)
+    backend = None
+    if variant.get("proxy"):
+        backend = EarlyBackend()
+        variant = dict(variant)
+        variant["extra"] = ('server.stream-request-body = %d\n$HTTP["url"] =~ "^/px/" { proxy.server = ("" => (("host" => '
+                            '"127.0.0.1", "port" => %d))) }' % (variant["srb"], backend.port))
+    srv = e2e.Server(bd, CONF % variant, modules=("mod_cgi", "mod_proxy") if backend else ("mod_cgi",), env=env)
     build_docroot(srv)
     cases = e2e_cases(ctx, variant, rng)
     vname = vname_of(variant)
@@ -1202,6 +1363,8 @@ def run_variant(ctx, bd, variant, rng, results):
         alive = srv.alive()
     finally:
         srv.stop()
+        if backend:
+            backend.close()
     if shim_log:
         try:
             c = [int(x) for x in open(shim_log).read().split()]
@@ -1372,6 +1535,8 @@ def run_e2e(ctx, only=None):
     variants.append(dict(backend="writev", stream=1, kareq=100, ctrls=0, kaidle=0))
     variants.append(dict(backend="sendfile", stream=0, kareq=100, ctrls=0, eh=1))
     variants.append(dict(backend="writev", stream=1, kareq=100, ctrls=0, eh=1))
+    variants.append(dict(backend="sendfile", stream=1, kareq=100, ctrls=0, proxy=1, srb=1))
+    variants.append(dict(backend="writev", stream=2, kareq=100, ctrls=0, proxy=1, srb=2))
     variants[5]["strace"] = True          # count the short / EAGAIN socket writes that happen naturally
     # the same server with write/writev/sendfile made to return short / EAGAIN / EINTR (LD_PRELOAD shim)
     variants.append(dict(backend="writev", stream=1, kareq=100, ctrls=0, shim=1 + ctx.seed))
@@ -1382,6 +1547,7 @@ def run_e2e(ctx, only=None):
     for v in variants:
         v.setdefault("kaidle", 4)
         v["python"] = sys.executable
+        v.setdefault("extra", "")
         v["errhandler"] = EH_CONF if v.get("eh") else ""
         v["errdoc"] = 'server.errorfile-prefix = "@ROOT@/errdocs/status-"' if v["kareq"] < 100 else ""
         v["parseopts"] = 'server.http-parseopts = ("url-ctrls-reject" => "disable")' if v["ctrls"] else ""
